@@ -469,6 +469,7 @@ static const char* _jbl_parse_value(
           return 0;
         }
         char *pe;
+        errno = 0;
         node->vi64 = strtoll(p, &pe, 0);
         if ((pe == p) || (errno == ERANGE)) {
           if (*p != '.' && !((*p == '-' || *p == '+') && *(p + 1) == '.')) {
